@@ -206,7 +206,9 @@ func rejudge(e *RunEnv, spec *Spec, v *Violation) []Violation {
 				harnessFatal("rejudge exec: %v", err)
 			}
 			post = p
-			if last && spec.CheckTrans != nil {
+			// violations found by probes carry the probe as their last step, so the two
+			// last commands are judged
+			if (last || i >= len(v.Trace)-2) && spec.CheckTrans != nil {
 				vs, _ := spec.CheckTrans(c, cur, st, r, post)
 				out = append(out, vs...)
 			}
@@ -217,6 +219,9 @@ func rejudge(e *RunEnv, spec *Spec, v *Violation) []Violation {
 			post = ApplyEnv(cur.State, st)
 		}
 		cur = &Node{State: post, Parent: cur, Via: st, Depth: i + 1}
+		if spec.CheckState != nil && i == len(v.Trace)-2 {
+			out = append(out, spec.CheckState(c, cur)...)
+		}
 	}
 	if spec.CheckState != nil {
 		out = append(out, spec.CheckState(c, cur)...)
